@@ -3,6 +3,7 @@ import AgVerif.Model.Translate
 import AgVerif.Model.LitCtx
 import AgVerif.Model.JExpr
 import AgVerif.Model.JExprSem
+import AgVerif.Model.Propagate
 open AgVerif AgVerif.Proto AgVerif.Translate
 
 /-- `eval <opcode> <dom> <lit> <i1> <i2> <i3> <l1> <l2> <l3>`:
@@ -40,6 +41,8 @@ def dec : Nat → List String → Option (DExpr × List String)
       let o ← binOf o; let (a, r) ← dec f r; let (b, r) ← dec f r; pure (.bin o a b, r)
     | "cond" :: o :: r => do
       let o ← binOf o; let (a, r) ← dec f r; let (b, r) ← dec f r; pure (.cond o a b, r)
+    | "scc" :: i :: r => do
+      let (a, r) ← dec f r; let (b, r) ← dec f r; pure (.scc (i == "&&") a b, r)
     | "cmp" :: l :: r => do
       let (a, r) ← dec f r; let (b, r) ← dec f r; pure (.cmp (l == "1") a b, r)
     | "condzcmp" :: o :: r => do
@@ -194,6 +197,8 @@ def handle (line : String) : String :=
     (match JX.dec (ws.length + 1) ws with
      | some (e, []) => JX.reply e
      | _ => "bad-tree")
+  -- `prop <block>`: register_propagation on one basic block (Model/Propagate.lean, wire form there)
+  | "prop" :: ws => AgVerif.Propagate.IO.reply ws
   | _ => "bad-op"
 
 def main : IO Unit := runMain handle
